@@ -104,6 +104,7 @@ type plugWorld struct {
 	bindInj  bool
 	bindLog  []string
 	pending  map[string]pendingEv
+	approved map[string][]string // ns/name -> nodes the last filter of that pod returned
 }
 
 func phaseOf(n int) corev1.PodPhase {
@@ -448,6 +449,10 @@ func (w *plugWorld) runOp(c map[string]interface{}) map[string]interface{} {
 			names = append(names, n.Name)
 		}
 		o["nodes"] = names
+		if w.approved == nil {
+			w.approved = map[string][]string{}
+		}
+		w.approved[Str(c, "ns")+"/"+Str(c, "name")] = names
 		setErr(ferr)
 	case "bind":
 		uid := Str(c, "uid")
@@ -459,8 +464,21 @@ func (w *plugWorld) runOp(c map[string]interface{}) map[string]interface{} {
 			}
 		}
 		o["uid"] = uid
+		node := Str(c, "node")
+		if len(node) > 10 && node[:10] == "@approved:" {
+			// the scheduler binds on one of the nodes the last filter of this pod approved
+			k := 0
+			fmt.Sscanf(node[10:], "%d", &k)
+			ap := w.approved[Str(c, "ns")+"/"+Str(c, "name")]
+			if len(ap) == 0 {
+				o["res"] = "skipped"
+				break
+			}
+			node = ap[k%len(ap)]
+		}
+		o["node"] = node
 		err := w.plugin.Bind(&schedulerapi.ExtenderBindingArgs{PodName: Str(c, "name"), PodNamespace: Str(c, "ns"),
-			PodUID: types.UID(uid), Node: Str(c, "node")})
+			PodUID: types.UID(uid), Node: node})
 		setErr(err)
 		if err == nil {
 			if p, gerr := w.kube.CoreV1().Pods(Str(c, "ns")).Get(context.TODO(), Str(c, "name"), metav1.GetOptions{}); gerr == nil {
